@@ -416,8 +416,18 @@ func init() {
 				}
 			}
 		}
-		if len(ws) > 1 {
-			e.unsupported("fmt.Errorf with multiple %%w")
+		if len(ws) > 1 { // *fmt.wrapErrors{msg, errs}: errors.Is/As walk Unwrap() []error through the real code
+			var errs Slice
+			for _, wi := range ws {
+				if wi < len(args) {
+					if inner := args[wi].(Iface); inner.t != nil {
+						errs = append(errs, inner)
+					}
+				}
+			}
+			cell := new(Value)
+			*cell = Struct{msg, errs}
+			return Iface{t: e.P.wrapErrsT, v: cell}
 		}
 		return e.newErrorString(msg)
 	})
@@ -1043,7 +1053,26 @@ func (e *Exec) unwrap(err Iface) (Iface, bool) {
 	if it, ok := r.(Iface); ok {
 		return it, true
 	}
-	return Iface{}, false // Unwrap() []error not supported
+	return Iface{}, false
+}
+
+// unwrapMulti returns the errors of an Unwrap() []error method.
+func (e *Exec) unwrapMulti(err Iface) ([]Iface, bool) {
+	r, ok := e.callMethod(err, "Unwrap")
+	if !ok {
+		return nil, false
+	}
+	sl, ok := r.(Slice)
+	if !ok {
+		return nil, false
+	}
+	var out []Iface
+	for _, x := range sl {
+		if it, ok := x.(Iface); ok && it.t != nil {
+			out = append(out, it)
+		}
+	}
+	return out, true
 }
 
 func (e *Exec) errorsIs(err, target Iface) bool {
@@ -1064,6 +1093,13 @@ func (e *Exec) errorsIs(err, target Iface) bool {
 		}
 		next, ok := e.unwrap(err)
 		if !ok || next.t == nil {
+			if many, ok := e.unwrapMulti(err); ok {
+				for _, m := range many {
+					if e.errorsIs(m, target) {
+						return true
+					}
+				}
+			}
 			return false
 		}
 		err = next
